@@ -155,13 +155,19 @@ def case_mod(acc, base, ci):
         return None
     try:
         r = fn(u)
-        o = obs(r)
-        s = str(r)
     except (ValueError, TypeError):
         acc.count("rejected")
         return None
     except Exception:  # noqa: BLE001 (C19)
         acc.count("other_exception")
+        return None
+    try:
+        o = obs(r)
+        s = str(r)
+    except Exception as e:  # noqa: BLE001
+        acc.nontrivial += 1
+        acc.viol("mod", (base, ci), observed={"call": name, "error": repr(e)}, expected="a URL whose components can be read",
+                 msg="URL(%r).%s returned an object whose components cannot be read: %r" % (base, name, e))
         return None
     if s != str(u):
         acc.nontrivial += 1
